@@ -25,6 +25,16 @@ CHECKS = {
         "differential testing bounded by the generators; numpy global RNG re-seeding aligns stochastic twins.",
    technique="Lean 4 proof (simulation relation / twin-run induction over arbitrary continuations) + twin relation executed on the real detectors",
    ref="§7 C02"),
+ "C17": dict(
+   text="Lean: generic first-alarm monotonicity (threshold-free statistics run + decision antitone in strictness => first alarm under the strict "
+        "threshold is never earlier), a link lemma (a detector model's first reported drift = first alarm of the abstract system) and per-detector "
+        "instances; PageHinkley is proved only under 'running means non-negative' (_partial) and the counter-example for a negative mean is proved "
+        "(known finding F12). On the real classes: paired runs under ordered threshold pairs on the same history and seed schedule for 13 families; "
+        "first-drift indices compared, warning-only changes compared on full traces.",
+   note="Trusted: Lean kernel; scipy critical values antitone in alpha (oracle hypothesis); detector models tied to the code by the per-detector "
+        "correspondence checks; paired runs are differential testing bounded by generators and menus.",
+   technique="Lean 4 proof (generic monotonicity lemma + per-model antitone decision) + paired-run relation executed on the real detectors",
+   ref="§7 C17"),
  "C13": dict(
    text="Lean 4 theorems for all n and all parameters: majority/minimum/ordered verdict iff count rule, range, monotonicity; "
         "ConfirmedElection refines the documented per-member voter automaton, counters <= wait_time. Tied to election.py by an "
